@@ -158,16 +158,44 @@ func vhSameExpression(a, b Expression, what string) {
 	}
 }
 
+// vhCarriesPositions: the expression built from a proto node carries that
+// node's name and source positions, at every level.
+func vhCarriesPositions(e Expression, p *pb.NodeProto, what string) {
+	vAssert(e.Name == p.Name, what+": name taken from the proto node")
+	vAssert(e.Begin == int(p.Begin) && e.End == int(p.End), what+": source positions taken from the proto node")
+	switch x := e.AnyExpression.(type) {
+	case CallExpression:
+		c := p.GetCall()
+		vAssert(c != nil && len(c.Args) == len(x.Args), what+": call shape")
+		if c != nil {
+			vhCarriesPositions(x.Function, c.Function, what)
+			for i := range x.Args {
+				if i < len(c.Args) {
+					vhCarriesPositions(x.Args[i], c.Args[i], what)
+				}
+			}
+		}
+	case LambdaExpression:
+		l := p.GetLambda_()
+		vAssert(l != nil, what+": lambda shape")
+		if l != nil {
+			vhCarriesPositions(x.Expression, l.Node, what)
+		}
+	}
+}
+
 //vh:steps=8000000 split=5 wall.thorough=3000
 func VH_C19_ProtoRoundTrip() {
 	p := vhTree("n", 1+vTier())
 	e, err := ExpressionFromProto(p)
 	vAssert(err == nil, "a well-formed tree converts from proto")
+	vhCarriesPositions(e, p, "from proto")
 	p1, err := e.ToProto()
 	vAssert(err == nil, "the expression converts to proto")
 	e1, err := ExpressionFromProto(p1)
 	vAssert(err == nil, "and back")
 	vReach("roundtrip")
+	vhCarriesPositions(e, p1, "to proto")
 	vhSameExpression(e, e1, "round trip")
 	// converting a second time changes nothing
 	p2, err := e1.ToProto()
